@@ -55,6 +55,7 @@ fn main() {
         "C02" => dgh::walkprops::run_c02(&tier, seed),
         "C07" => dgh::c07::run(&tier, seed),
         "C13" => dgh::c13::run(&tier, seed),
+        "C08" => dgh::c08::run(&tier, seed),
         _ => {
           eprintln!("unknown property {}", prop);
           std::process::exit(2)
